@@ -17,6 +17,7 @@ TRUSTED = [
     "hand model Model/Cif.lean of parse_value / NUM_ERR_REGEX / parse_quote / VALUES_REGEX / format_field / Cif.to_string / Cif.parse "
     "(line-driven state machine; multi-line ';' text fields not modelled); tied by whole-document correspondence incl. a malformed stream",
     "Python str(float) (shortest round-tripping repr) is not modelled: scalar floats carry the text Python printed; float(text) = exact decimal reading",
+    "IEEE negative zero is not a rational: the correspondence feeds +0.0 to model and code; -0.0 is covered by the round-trip oracle only",
     "the whole-document round trip parse(print d) = d is NOT proved in Lean (value-, field- and token-level theorems are); it is checked by the oracle",
 ]
 RULE = ("documents from a grammar: 1-4 blocks, 0-12 items, scalars and loops of 0-6 columns x 0-8 rows (3 % of the loops 96-130 columns wide), ints, floats (integral floats, 1e±k magnitudes, "
@@ -103,6 +104,14 @@ def rand_doc(rng):
                 blk[fresh(prefix)] = [rand_value(rng, kind) for _ in range(nrow)]
         doc[rng.choice(["crystal", "blk", "I", "global", "test-1", "a", "powder_data_", "data_", "DATA_x", "loop_"]) + str(b)] = blk
     return doc
+
+
+def pos_zero(doc):
+    """-0.0 (e.g. round(-0.04, 1)) is not a rational number: the model, which computes with exact rationals, has no negative zero, while
+    Python prints its sign ('-0.000000000000'). The correspondence therefore feeds +0.0 to both sides; the round-trip oracle (judge) keeps
+    -0.0 among its inputs (it reads back as a float equal to 0.0)."""
+    fix = lambda v: v + 0.0 if isinstance(v, float) and v == 0.0 else v
+    return {bn: {k: ([fix(x) for x in v] if isinstance(v, list) else fix(v)) for k, v in blk.items()} for bn, blk in doc.items()}
 
 
 def nontrivial(doc):
@@ -209,7 +218,7 @@ def correspond(ctx):
     cases = []
     ndoc = 150 if not ctx.thorough else 2500
     for _ in range(ndoc):
-        doc = rand_doc(rng)
+        doc = pos_zero(rand_doc(rng))
         text = Cif(doc).to_string()
         cases.append((print_line(doc), pct(text), {"op": "print", "doc": str(doc)[:300]}))
         cases.append(("parse " + pct(text), impl_parse(text), {"op": "parse", "text": text[:400]}))
